@@ -556,40 +556,197 @@ theorem loop_delay_respected (env : Env) (l : Limits) (now : Int) (r : Rec) (scr
   rw [← loop_is_run]
   exact delay_respected env l _ now r
 
-/-! ## Timers: the clause is FALSE over a timer's life (finding C11-F1)
+/-! ## Timers: the whole life of one timer (after the repair of finding C11-F1, commit af4d77a)
 
-  Full statement, as the property (and docs/timers.rst: "For PermanentError, the timer stops forever
-  and is not retried") has it, for the life of one timer:
-    `∀ a b ∈ timerRun …, a before b → a.recAfter.failure = true → False`  and
-    `l.retries = some N → (invoked attempts of timerRun …).length ≤ N`.
-  Proved instead: the bounds hold per retry series (`loop_retries_bound`, `loop_timeout_bound`,
-  `loop_delay_respected`, `final_is_last` — one series of `_timer` is `loopRun`), and the negation of
-  the life-long statement by the witnesses below, which `run()` replays on the real `_timer`. -/
+  One retry series of `_timer` is `loopRun` (so `loop_retries_bound`, `loop_timeout_bound`,
+  `loop_delay_respected`, `final_is_last` hold per series); a new series starts only after a
+  success; a series that failed for good is the last thing the timer ever invokes. -/
 
 def invokedOf (as : List Attempt) : List Attempt := as.filter (fun a => a.out.invoked)
 
-/-- A timer (interval 10) whose function raises `PermanentError` is called again 10 ticks later,
-    with `retry = 0`, from a fresh record — the permanent failure did not end it. -/
-theorem timer_permanent_restarts_witness :
-    ((timerRun ⟨.temporary, 60⟩ ⟨none, none, none, none⟩ 10 false 0 (fromScratch 0)
-        [(.permanent, 0), (.permanent, 0)]).map
-      (fun a => (a.time, a.retry, a.out.invoked, a.out.final, a.recAfter.failure))) =
-      [(0, 0, true, true, true), (10, 0, true, true, true)] := by decide
+/-- A timer whose record is a failure for good never invokes (or even executes) anything again. -/
+theorem timer_failed_never_runs (env : Env) (l : Limits) (interval : Nat) (sharp : Bool) (now : Int) (r : Rec)
+    (script : List (Raised × Nat)) (h : r.failure = true) : timerRun env l interval sharp now r script = [] := by
+  cases script with
+  | nil => rfl
+  | cons s rest => obtain ⟨x, dur⟩ := s; simp [timerRun, h]
 
-/-- With `retries = 1` a timer's function is invoked 3 times in 3 intervals: "at most N times"
-    is false over the timer's life (it is true per series). -/
-theorem timer_retries_exceeded_witness :
-    ∃ (l : Limits) (script : List (Raised × Nat)), l.retries = some 1 ∧
-      (invokedOf (timerRun ⟨.temporary, 60⟩ l 10 false 0 (fromScratch 0) script)).length = 3 :=
-  ⟨⟨none, none, some 1, none⟩, [(.arbitrary, 0), (.arbitrary, 0), (.arbitrary, 0)], rfl, by decide⟩
+/-- After a final failure (PermanentError, permanent-mode error, retries or timeout exhausted) there is
+    no further attempt in the timer's life: an attempt that is followed by another one did not fail. -/
+theorem timer_failure_is_last (env : Env) (l : Limits) (interval : Nat) (sharp : Bool)
+    (script : List (Raised × Nat)) :
+    ∀ (now : Int) (r : Rec),
+      (timerRun env l interval sharp now r script).Pairwise (fun a _ => a.recAfter.failure = false) := by
+  induction script with
+  | nil => intro now r; exact List.Pairwise.nil
+  | cons s rest ih =>
+    intro now r
+    obtain ⟨x, dur⟩ := s
+    cases hf : r.failure with
+    | true => simp [timerRun, hf]
+    | false =>
+      simp only [timerRun, hf, Bool.false_eq_true, if_false]
+      refine List.Pairwise.cons ?_ (ih _ _)
+      intro b hb
+      cases hfa : (attemptAt env l now (if r.finished = true then fromScratch now else r) x dur 0).recAfter.failure with
+      | false => rfl
+      | true => rw [timer_failed_never_runs _ _ _ _ _ _ _ hfa] at hb; cases hb
 
-/-- What does hold for the whole life: a timer's series are `loopRun`s — as long as the record is
-    not finished, the timer's next step is the in-memory loop's next step. -/
+/-- `retries = N`, per series: every invocation in a timer's life has a retry number below `N`… -/
+theorem timer_retry_lt (env : Env) (l : Limits) (N : Int) (hN : l.retries = some N) (interval : Nat) (sharp : Bool)
+    (script : List (Raised × Nat)) :
+    ∀ (now : Int) (r : Rec) (a : Attempt), a ∈ timerRun env l interval sharp now r script →
+      a.out.invoked = true → a.retry < N := by
+  induction script with
+  | nil => intro now r a h; cases h
+  | cons s rest ih =>
+    intro now r a h hi
+    obtain ⟨x, dur⟩ := s
+    cases hf : r.failure with
+    | true => simp [timerRun, hf] at h
+    | false =>
+      simp only [timerRun, hf, Bool.false_eq_true, if_false] at h
+      rcases List.mem_cons.1 h with rfl | h'
+      · simp only [attemptAt_out] at hi
+        have hp := (classify_invoked_iff env l _ _ dur x).1 hi
+        exact retriesOut_false_of l _ N hN ((precheck_none_iff l _ _).1 hp).2
+      · exact ih _ _ a h' hi
+
+/-- … and the retry numbers count up by one inside a series; a new series (retry 0 again) starts
+    only right after a success. Hence at most `N` invocations per series, and with
+    `timer_failure_is_last` a failed series is the last one. -/
+theorem timer_retry_steps (env : Env) (l : Limits) (interval : Nat) (sharp : Bool) (script : List (Raised × Nat)) :
+    ∀ (now : Int) (r : Rec) (n : Nat) (a b : Attempt),
+      (timerRun env l interval sharp now r script)[n]? = some a →
+      (timerRun env l interval sharp now r script)[n + 1]? = some b →
+      (b.retry = a.retry + 1 ∧ a.recAfter.finished = false) ∨ (b.retry = 0 ∧ a.recAfter.success = true) := by
+  induction script with
+  | nil => intro now r n a b ha; simp [timerRun] at ha
+  | cons s rest ih =>
+    intro now r n a b ha hb
+    obtain ⟨x, dur⟩ := s
+    cases hf : r.failure with
+    | true => simp [timerRun, hf] at ha
+    | false =>
+      simp only [timerRun, hf, Bool.false_eq_true, if_false] at ha hb
+      cases n with
+      | succ m =>
+        rw [List.getElem?_cons_succ] at ha hb
+        exact ih _ _ m a b ha hb
+      | zero =>
+        rw [List.getElem?_cons_zero] at ha
+        rw [List.getElem?_cons_succ] at hb
+        cases ha
+        -- b is the head of the continuation
+        cases rest with
+        | nil => simp [timerRun] at hb
+        | cons s' rest' =>
+          obtain ⟨x', dur'⟩ := s'
+          generalize hA : attemptAt env l now (if r.finished = true then fromScratch now else r) x dur 0 = A at hb ⊢
+          cases hfa : A.recAfter.failure with
+          | true => simp [timerRun, hfa] at hb
+          | false =>
+            simp only [timerRun, hfa, Bool.false_eq_true, if_false, List.getElem?_cons_zero,
+              Option.some.injEq] at hb
+            subst hb
+            simp only [attemptAt_retry]
+            cases hfin : A.recAfter.finished with
+            | false => left; simp [hfin, ← hA]
+            | true =>
+              right
+              have hs : A.recAfter.success = true := by
+                simp only [Rec.finished, hfa, Bool.or_false] at hfin; exact hfin
+              simp [fromScratch, hs]
+
+/-- The count over the whole life: at most `N` invocations for the running series plus `N` for every
+    success (each success opens one new series); a failure opens nothing. -/
+def budget (N : Int) (r : Rec) : Nat :=
+  if r.failure then 0 else if r.success then N.toNat else (N - r.retries).toNat
+
+theorem timer_invocations_bound (env : Env) (l : Limits) (N : Int) (hN : l.retries = some N) (interval : Nat)
+    (sharp : Bool) (script : List (Raised × Nat)) :
+    ∀ (now : Int) (r : Rec),
+      (invokedOf (timerRun env l interval sharp now r script)).length ≤
+        budget N r + N.toNat * ((timerRun env l interval sharp now r script).filter
+          (fun a => a.recAfter.success)).length := by
+  induction script with
+  | nil => intro now r; simp [timerRun, invokedOf]
+  | cons s rest ih =>
+    intro now r
+    obtain ⟨x, dur⟩ := s
+    cases hf : r.failure with
+    | true => simp [timerRun, hf, invokedOf]
+    | false =>
+      simp only [timerRun, hf, Bool.false_eq_true, if_false]
+      generalize hr0 : (if r.finished = true then fromScratch now else r) = r0
+      have hb0 : budget N r = (N - r0.retries).toNat := by
+        subst hr0
+        cases hs : r.success with
+        | true => simp [budget, hf, hs, Rec.finished, fromScratch]
+        | false => simp [budget, hf, hs, Rec.finished]
+      generalize hA : attemptAt env l now r0 x dur 0 = A
+      have ih' := ih (timerNext interval sharp A) A.recAfter
+      have hAr : A.recAfter.retries = r0.retries + 1 := by rw [← hA]; rfl
+      have hAo : A.out = classify env l r0 now dur x := by rw [← hA]; rfl
+      simp only [invokedOf, List.filter_cons] at ih' ⊢
+      rw [hb0]
+      by_cases hi : A.out.invoked = true
+      · have hp := (classify_invoked_iff env l r0 now dur x).1 (hAo ▸ hi)
+        have hlt := retriesOut_false_of l _ N hN ((precheck_none_iff l r0 now).1 hp).2
+        rw [if_pos hi, List.length_cons]
+        cases hfa : A.recAfter.failure with
+        | true =>
+          have hs : A.recAfter.success = false := by
+            have := (final_finished r0 (A.merged) A.out)
+            rw [← hA] at hfa ⊢
+            simp only [attemptAt, withOutcome] at hfa ⊢
+            cases h1 : (classify env l r0 now dur x).final <;> cases h2 : ((classify env l r0 now dur x).exc == Exc.none) <;>
+              simp_all
+          simp only [budget, hfa, if_true] at ih'
+          rw [hs]; simp only [Bool.false_eq_true, if_false]
+          omega
+        | false =>
+          cases hs : A.recAfter.success with
+          | true =>
+            simp only [budget, hfa, hs, Bool.false_eq_true, if_false, if_true] at ih'
+            simp only [if_true, List.length_cons, Nat.mul_add, Nat.mul_one]
+            omega
+          | false =>
+            simp only [budget, hfa, hs, Bool.false_eq_true, if_false, hAr] at ih'
+            simp only [Bool.false_eq_true, if_false]
+            omega
+      · rw [if_neg hi]
+        -- not invoked: a limit refused it, the record is a failure: nothing follows
+        have hni : (classify env l r0 now dur x).invoked = false := by
+          rw [← hAo]; simpa using hi
+        have hfa : A.recAfter.failure = true := by
+          rw [← hA]; exact ((limits_refuse env l r0 now dur x _).2 hni).2.2.1
+        have hsu : A.recAfter.success = false := by
+          rw [← hA]; exact ((limits_refuse env l r0 now dur x _).2 hni).2.2.2
+        rw [timer_failed_never_runs _ _ _ _ _ _ _ hfa] at ih' ⊢
+        simp [hsu]
+
+/-- As long as the record is not finished, the timer's next step is the in-memory loop's next step. -/
 theorem timer_series_is_loop (env : Env) (l : Limits) (interval : Nat) (sharp : Bool) (now : Int) (r : Rec)
     (x : Raised) (dur : Nat) (rest : List (Raised × Nat)) (hf : r.finished = false) :
     (timerRun env l interval sharp (wakeTime r now) r ((x, dur) :: rest)).head? =
       (loopRun env l now r ((x, dur) :: rest)).head? := by
-  simp [timerRun, loopRun, hf]
+  have hfl : r.failure = false := by
+    simp only [Rec.finished, Bool.or_eq_false_iff] at hf; exact hf.2
+  simp [timerRun, loopRun, hf, hfl]
+
+-- non-vacuity: a timer (interval 10) whose function raises PermanentError is executed once, for ever
+example : ((timerRun ⟨.temporary, 60⟩ ⟨none, none, none, none⟩ 10 false 0 (fromScratch 0)
+    [(.permanent, 0), (.permanent, 0)]).map (fun a => (a.time, a.retry, a.out.invoked, a.recAfter.failure))) =
+    [(0, 0, true, true)] := by decide
+-- with retries = 1 a failing timer is invoked once in its life; after successes it starts new series
+example : (invokedOf (timerRun ⟨.temporary, 60⟩ ⟨none, none, some 1, none⟩ 10 false 0 (fromScratch 0)
+    [(.arbitrary, 0), (.arbitrary, 0), (.arbitrary, 0)])).length = 1 := by decide
+example : ((timerRun ⟨.temporary, 60⟩ ⟨none, none, some 2, some 3⟩ 10 false 0 (fromScratch 0)
+    [(.ok, 0), (.arbitrary, 0), (.ok, 0), (.arbitrary, 0), (.arbitrary, 0), (.ok, 0)]).map
+    (fun a => (a.time, a.retry, a.recAfter.success, a.recAfter.failure))) =
+    [(0, 0, true, false), (10, 0, false, false), (13, 1, true, false), (23, 0, false, false), (26, 1, false, true)] := by
+  decide
 
 /-! ## Non-vacuity: the hypotheses are met, the branches are taken -/
 
